@@ -352,6 +352,96 @@ func findType(name string) *farmType {
 	return nil
 }
 
+// unknownMethods: methods of interface gerror.Factory beyond the 19 (plus Error, Is) this harness,
+// the translator and the Coq type [method] know.  Each is called by reflection, with synthesised
+// arguments, on a plain GError factory and on the generated factory of every farm struct: the
+// generated result must be of the extension type and show the same name / message / source / tag /
+// stack.  (A method added to the interface and to *GError without a template stanza is promoted
+// from the embedded GError: it compiles, and returns a plain *GError that has lost the
+// extension's fields.)
+type extraFinding struct {
+	Type     string `json:"type"`
+	Method   string `json:"method"`
+	Args     string `json:"args"`
+	BaseType string `json:"base_result_type"`
+	GenType  string `json:"generated_result_type"`
+	WantType string `json:"factory_type"`
+	Base     viewJ  `json:"base"`
+	Gen      viewJ  `json:"gen"`
+	Panic    string `json:"panic,omitempty"`
+	Bad      bool   `json:"bad"`
+}
+
+func probeUnknownMethods() []extraFinding {
+	known := map[string]bool{"Error": true, "Is": true}
+	for _, m := range methodNames {
+		known[m] = true
+	}
+	it := reflect.TypeOf((*gerror.Factory)(nil)).Elem()
+	var out []extraFinding
+	for i := 0; i < it.NumMethod(); i++ {
+		m := it.Method(i)
+		if known[m.Name] {
+			continue
+		}
+		for ti := range farm {
+			ft := &farm[ti]
+			f := extraFinding{Type: ft.Name, Method: m.Name}
+			func() {
+				defer func() {
+					if r := recover(); r != nil {
+						f.Panic, f.Bad = fmt.Sprint(r), true
+					}
+				}()
+				base := gerror.FactoryOf(&gerror.GError{Name: "ErrU", Message: "m"})
+				gen := ft.New(gerror.GError{Name: "ErrU", Message: "m"})
+				call := func(fac gerror.Factory) (gerror.Error, bool) {
+					mv := reflect.ValueOf(fac).MethodByName(m.Name)
+					var args []reflect.Value
+					var shown []string
+					n := m.Type.NumIn()
+					for k := 0; k < n; k++ {
+						at := m.Type.In(k)
+						if m.Type.IsVariadic() && k == n-1 {
+							break
+						}
+						switch {
+						case at.Kind() == reflect.String:
+							args = append(args, reflect.ValueOf("arg"+strconv.Itoa(k)).Convert(at))
+							shown = append(shown, strconv.Quote("arg"+strconv.Itoa(k)))
+						case at.Implements(reflect.TypeOf((*error)(nil)).Elem()) || at.Kind() == reflect.Interface:
+							args = append(args, reflect.ValueOf(errors.New("foreign")).Convert(at))
+							shown = append(shown, "errors.New(\"foreign\")")
+						default:
+							args = append(args, reflect.Zero(at))
+							shown = append(shown, "zero "+at.String())
+						}
+					}
+					f.Args = strings.Join(shown, ", ")
+					res := mv.Call(args)
+					if len(res) != 1 {
+						return nil, false
+					}
+					e, ok := res[0].Interface().(gerror.Error)
+					return e, ok
+				}
+				be, ok1 := call(base)
+				ge, ok2 := call(gen)
+				if !ok1 || !ok2 {
+					return // not a deriving method (does not return a gerror.Error)
+				}
+				f.BaseType, f.GenType, f.WantType = fmt.Sprintf("%T", be), fmt.Sprintf("%T", ge), fmt.Sprintf("%T", gen)
+				f.Base, f.Gen = viewOf(be), viewOf(ge)
+				f.Bad = f.GenType != f.WantType || f.Base != f.Gen
+			}()
+			if f.BaseType != "" || f.Panic != "" {
+				out = append(out, f)
+			}
+		}
+	}
+	return out
+}
+
 func main() {
 	seed := flag.Uint64("seed", 1, "PRNG seed")
 	prefix := flag.String("out", "c09", "output prefix")
@@ -380,6 +470,9 @@ func main() {
 			emit(out, runCase("replay", ft, c.Name, c.Msg, c.Src, c.Steps))
 		}
 		return
+	}
+	if b, err := json.Marshal(probeUnknownMethods()); err == nil {
+		_ = os.WriteFile(*prefix+".extra.json", b, 0o644)
 	}
 	type preset struct{ msg, src string }
 	all := []preset{{"", ""}, {"base message", ""}, {"", "preset:Source"}, {" base ", "preset:Source"}}
